@@ -433,7 +433,8 @@ class SpectrumEditScenario(Scenario):
             value = [c0 + c1 * w for w in wave]
             lin = [c0, c1]
         else:
-            value = [round(rng.uniform(0.0, 1.0), 3) for _ in wave]
+            signed = rng.random() < 0.2         # background-subtracted data: negative samples, in the wings too
+            value = [round(rng.uniform(-0.6 if signed else 0.0, 1.0), 3) for _ in wave]
             lin = None
             if rng.random() < 0.4:      # near-zero wings so that trim has something to do
                 k = rng.randint(1, max(1, n // 3))
